@@ -59,8 +59,11 @@ AEff == [ACtl EXCEPT !.simple = {Eff, IncA, Y(ObsA), Y(VarA)}, !.posts = {None, 
 \* argument of a one-argument call; in a small control alphabet
 Base == {Lit0, VarA, ObsA}
 Exprs == Base \cup {[k |-> wk, e |-> e] : wk \in {"neg", "paren", "w1"}, e \in Base}
-AExpr == [simple |-> {Eff, IncA} \cup {Y(e) : e \in Exprs},
-          inits |-> {None}, posts |-> {None, Y([k |-> "w1", e |-> Lit0]), Y([k |-> "neg", e |-> ObsA])}, conds |-> {T0},
+\* ... and a variable of another package (qualified identifier rt.Level) that a plain post statement changes
+QV == [k |-> "qv"]
+IncQ == [k |-> "incq"]
+AExpr == [simple |-> {Eff, IncA, IncQ, Y(QV)} \cup {Y(e) : e \in Exprs},
+          inits |-> {None}, posts |-> {None, IncQ, Y([k |-> "w1", e |-> Lit0]), Y([k |-> "neg", e |-> ObsA])}, conds |-> {T0},
           ifinits |-> {None}, kinds |-> {"if", "block", "for"}, jumps |-> {"return", "retx", "break"}, ranges |-> {}]
 \* jumps in depth: only what interacts with break / continue (loops with and without a yielding
 \* post statement, switch, if), so that nesting depth 4-5 is exhaustively reachable
@@ -80,9 +83,9 @@ EffX(v) == [k |-> "effx", id |-> 0, v |-> v]
 ABy == [AOpt EXCEPT !.simple = {Eff, [k |-> "setcv"], [k |-> "sets"], [k |-> "setp"], EffX([k |-> "gets"]), EffX([k |-> "pv", n |-> "a"])},
                     !.posts = {None, PAssign}]
 AOptX == [AOpt EXCEPT !.simple = {IncA, [k |-> "unsup", u |-> "clo-loopvar", id |-> 0], Y([k |-> "pk", n |-> "a"]),
-                                  Y([k |-> "idi", n |-> "a"]), Y([k |-> "unn", n |-> "a"]), Y([k |-> "perr", n |-> "a"]), Y([k |-> "vari", n |-> "a"]), Y([k |-> "idg", n |-> "a"]), Y([k |-> "ln"]), Y([k |-> "cnv", n |-> "a"]), Y([k |-> "gets"])}]
+                                  Y([k |-> "swp", n |-> "a"]), Y([k |-> "dup", n |-> "a"]), Y([k |-> "idi", n |-> "a"]), Y([k |-> "unn", n |-> "a"]), Y([k |-> "perr", n |-> "a"]), Y([k |-> "vari", n |-> "a"]), Y([k |-> "idg", n |-> "a"]), Y([k |-> "ln"]), Y([k |-> "cnv", n |-> "a"]), Y([k |-> "gets"])}]
 AByX == [ABy EXCEPT !.simple = {IncA, EffX([k |-> "pk", n |-> "a"]),
-                                EffX([k |-> "idi", n |-> "a"]), EffX([k |-> "unn", n |-> "a"]), EffX([k |-> "perr", n |-> "a"]), EffX([k |-> "vari", n |-> "a"]), EffX([k |-> "idg", n |-> "a"]), EffX([k |-> "ln"]), EffX([k |-> "cnv", n |-> "a"]), EffX([k |-> "gets"])}]
+                                EffX([k |-> "swp", n |-> "a"]), EffX([k |-> "dup", n |-> "a"]), EffX([k |-> "idi", n |-> "a"]), EffX([k |-> "unn", n |-> "a"]), EffX([k |-> "perr", n |-> "a"]), EffX([k |-> "vari", n |-> "a"]), EffX([k |-> "idg", n |-> "a"]), EffX([k |-> "ln"]), EffX([k |-> "cnv", n |-> "a"]), EffX([k |-> "gets"])}]
 \* constructs outside the supported subset (C12): a small control alphabet plus exactly one such construct
 UKinds == {"lbreak", "lcont", "goto", "select", "selbrk", "defer", "fallyield", "ifinit", "rparr", "rfunc", "rtparam", "lrange", "parenyield", "rparrdefer", "rparrbrk", "rparrcnt", "elifinit",
            "clo-lbreak", "clo-goto", "clo-select", "clo-defer", "clo-rfunc", "clo-rparr", "clo-fall", "clo-selbrk", "clo-lrange"}
